@@ -80,7 +80,9 @@ Check(e) ==
                   (IF e.kind = "cols" /\ rows >= 0
                    THEN << <<"C14 every column has one row per surviving trajectory", e.rows = rows>> >> ELSE <<>>))
       [] e.kind = "End" ->
-            Fails(DiskClauses(e.disk) \o
+            (* e.inWriter: the run failed INSIDE a writer call, while the table was being converted for the rewrite: the file is still the   *)
+            (* table as of the last completed boundary                                                                                   *)
+            Fails(DiskClausesAt(e.disk, e.inWriter) \o
                   << <<"C14 no exception unless a fault was injected", e.outcome = "return" \/ e.injected>>,
                      <<"C14 returned table = the table built by the stages; columns unchanged since they were stored",
                        e.outcome # "return" \/
